@@ -374,10 +374,33 @@ def mk_solver():
 
 
 def discharge(ex, timeout_ms=20000, use_cvc5=True, cvc5_agree=False):
+    """Two passes: every sub-query first gets a short z3-only budget; what is still open afterwards gets the full
+    budget (and cvc5), unless another path has meanwhile refuted the same obligation with a model - then the verdict
+    is settled and the remaining paths are not searched (on a false quantified goal each costs the whole budget)."""
+    refuted = set()
+    if timeout_ms <= 8000:
+        return _discharge_list(ex, list(ex.obls), timeout_ms, use_cvc5, cvc5_agree, refuted)
+    res = _discharge_list(ex, list(ex.obls), 5000, False, cvc5_agree, refuted)
+    for i, ob in enumerate(ex.obls):
+        if res[i].get("status") != "unknown" or ob.kind == "cover":
+            continue
+        spent = res[i].get("time", 0.0)
+        res[i] = _discharge_list(ex, [ob], timeout_ms, use_cvc5, cvc5_agree, refuted)[0]
+        res[i]["time"] = round(res[i].get("time", 0.0) + spent, 4)
+    return res
+
+
+def _discharge_list(ex, obls, timeout_ms, use_cvc5, cvc5_agree, refuted_names):
     results = []
     axioms = list(ex.axioms) + ex.str_distinct_axioms()
-    for ob in ex.obls:
+    for ob in obls:
         t0 = time.time()
+        if ob.name in refuted_names and ob.kind != "cover":
+            # another path already refuted this obligation with a model: the verdict is settled, the remaining paths
+            # are not searched (on a false quantified goal each of them can cost the whole time budget)
+            results.append({"name": ob.name, "kind": ob.kind, "label": ob.label, "line": ob.line, "backend": "z3",
+                            "status": "skipped-after-refutation", "time": 0.0})
+            continue
         s = mk_solver()
         s.set("timeout", timeout_ms)
         for a in axioms:
@@ -466,6 +489,8 @@ def discharge(ex, timeout_ms=20000, use_cvc5=True, cvc5_agree=False):
                         rec["backend"] = "cvc5"
                         rec["model"] = {}
         rec["time"] = round(time.time() - t0, 4)
+        if rec.get("status") == "refuted" and rec.get("backend", "z3") != "cvc5":
+            refuted_names.add(ob.name)
         results.append(rec)
     return results
 
